@@ -315,6 +315,12 @@ func runSeq(c SeqCase, st *kit.Stats, h seqHooks, flags map[string]int) error {
 		if h.observe != nil {
 			h.observe(argv, before, exp, st, flags)
 		}
+		// the add/remove cycles of the scripted sparse-table scenarios only exist to move the table's
+		// removal counter: their replies are compared, the full dump is taken after the scenario's real steps
+		churn := len(argv) > 1 && argv[1] == "churn" && i != len(c.Steps)-1
+		if churn {
+			continue
+		}
 		if !h.noDump || i == len(c.Steps)-1 {
 			t0 = nowMs()
 			d, err := dumpEmu(conn)
